@@ -703,3 +703,38 @@ def c19_mt_driver(ctx):
     res["stats"]["c19.lock_edges"] = len(lg["edges"])
     res["samples"].append({"lock_order_edges": lg["where"]})
     return res
+
+
+# ---------------------------------------------------------------- C01 / C02: archives written by the Lean model, read by Rust
+def _model(wvmodel, lines):
+    return subprocess.run([wvmodel], input="\n".join(lines) + "\n", stdout=subprocess.PIPE, text=True).stdout.split("\n")
+
+
+def c01_write_driver(ctx):
+    """direction (b): every `mpqwrite` request the harness recorded is executed by the Lean writer; the Rust reader
+    must open the result and return every file under several spellings, and must not resolve a never-added name"""
+    res = {"evals": 0, "nontrivial": 0, "stats": {}, "samples": [], "oracle_fail": [], "disagreements": [], "model_cases": 0}
+    reqf = os.path.join(ctx["outdir"], "mpqwrite-requests.txt")
+    if not os.path.exists(reqf):
+        return res
+    lines = [l.rstrip("\n").split("\t") for l in open(reqf) if "\t" in l]
+    limit = 60 if ctx["tier"] == "quick" else 600
+    lines = lines[:limit]
+    outs = _model(ctx["wvmodel"], [l[0] for l in lines])
+    tmpd = os.path.join(ctx["outdir"], "w01")
+    os.makedirs(tmpd, exist_ok=True)
+    for (req, exp), arch in zip(lines, outs):
+        af, ef = os.path.join(tmpd, "a.txt"), os.path.join(tmpd, "e.txt")
+        open(af, "w").write(arch)
+        open(ef, "w").write(exp)
+        p = subprocess.run([ctx["wvh"], "fsop", "readall", af, ef], stdout=subprocess.PIPE, text=True)
+        res["evals"] += 1
+        res["model_cases"] += 1
+        fails = [l for l in p.stdout.split("\n") if l.startswith("FAIL")]
+        if fails:
+            res["disagreements"].append((0, req[:200], "rust reader on the model-written archive: " + "; ".join(fails[:3]), "every file reads back"))
+        else:
+            res["nontrivial"] += 1
+    res["stats"]["c01.model_written_archives_read_by_rust"] = res["evals"]
+    shutil.rmtree(tmpd, ignore_errors=True)
+    return res
